@@ -523,6 +523,67 @@ def auto_impls(src, file, types):
         res.append((m.group(4), m.group(5), rel, b.line))
     return res
 
+def hand_impls(repo):
+    """EVERY hand-written `unsafe impl … Send|Sync for X<…>` of the crate: (trait, qualified type, [(param, Send|Sync)] bounds,
+    [type parameters of X that occur in a field outside PhantomData], src).  Parameters bounded by `BumpAllocatorSettings` are
+    type-level constants (never stored) and left out."""
+    res = []
+    for rel in all_sources(repo):
+        src = read(repo, rel)
+        if not re.search(r"\b(Send|Sync)\s+for\b", src): continue
+        for b in top_blocks(src, rel):
+            if b.kind not in ("impl", "decl"): continue
+            m = re.match(r"^(unsafe\s+)?impl\s*(<.*?>)?\s*(!?)(Send|Sync)\s+for\s+([A-Za-z_][A-Za-z0-9_]*)", b.header)
+            if not m: continue
+            if m.group(3) == "!": die(f"{rel}:{b.line}: negative impl `{b.header}` (not supported)")
+            tr, head = m.group(4), m.group(5)
+            bounds = []
+            parts = list(split_top((m.group(2) or "<>")[1:-1]))
+            w = re.split(r"\bwhere\b", b.header)
+            if len(w) > 1: parts += list(split_top(w[1]))
+            for g in parts:
+                if ":" in g and not g.strip().startswith("'"):
+                    nm, bs = g.split(":", 1)
+                    for bb in bs.split("+"): bounds.append((nm.strip(), bb.strip()))
+            markers = {n for n, x in bounds if x.startswith("BumpAllocatorSettings")}
+            sm = re.search(rf"\bstruct\s+{head}\b\s*(<)?", src)
+            if not sm: die(f"{rel}:{b.line}: `{tr} for {head}`: struct {head} is not defined in the same file")
+            k = sm.end()
+            generics = ""
+            if sm.group(1):
+                k = match_close(src, sm.end() - 1); generics = src[sm.end():k]; k += 1
+            rest = src[k:]
+            mm = re.match(r"^\s*(?:where[^{(;]*)?([({;])", rest, re.S)
+            if not mm: die(f"{rel}: struct {head}: unsupported shape")
+            body = ""
+            if mm.group(1) != ";":
+                j = k + mm.end() - 1
+                body = src[j + 1:match_close(src, j)]
+            params = []
+            for g in split_top(generics):
+                g = g.strip()
+                if not g or g.startswith("'") or g.startswith("const "): continue
+                params.append(re.split(r"[:=\s]", g, 1)[0])
+            if "$" in generics:
+                # the struct is declared inside a macro with a macro-supplied parameter list: take the impl's type arguments
+                am = re.search(rf"\bfor\s+{head}\s*<([^>]*)>", b.header)
+                params = [a.strip() for a in split_top(am.group(1))] if am else []
+                params = [a for a in params if re.match(r"^[A-Z][A-Za-z0-9]*$", a)]
+            # field types with every PhantomData<…> removed
+            txt = body
+            while True:
+                pm = re.search(r"\bPhantomData\s*<", txt)
+                if not pm: break
+                txt = txt[:pm.start()] + " " + txt[match_close(txt, pm.end() - 1) + 1:]
+            stored = [p_ for p_ in params if p_ not in markers and re.search(rf"\b{p_}\b", txt)]
+            comps = rel[:-3].split("/")
+            qual = head if head not in ("IntoIter", "Drain", "Splice") else comps[0] + "::" + head
+            res.append((tr.lower(), qual, [(n, x.lower()) for n, x in bounds if x in ("Send", "Sync")], stored, f"{rel}:{b.line}"))
+    need = {("send", "Bump"), ("send", "mut_bump_vec::IntoIter"), ("sync", "mut_bump_vec::IntoIter"), ("send", "BumpBox"), ("send", "FixedBumpVec")}
+    have = {(r[0], r[1]) for r in res}
+    for k in need - have: die(f"expected hand-written `{k[0]} for {k[1]}` impl not found")
+    return res
+
 REL = {"==": "eq", ">=": "ge", "<=": "le", "<": "lt", ">": "gt", "!=": "ne"}
 
 def settings_asserts(repo):
@@ -917,7 +978,7 @@ def extract(repo):
     for rel in ("bump.rs", "bump_scope.rs", "bump_scope_guard.rs", "bump_claim_guard.rs", "bump_pool.rs", "raw_bump.rs", "stats.rs", "bump_box.rs"):
         for a in auto_impls(read(repo, rel), rel, handle_types):
             autos.append(a + (rel,))
-    return list(seen.values()), scope_impls(repo), settings_asserts(repo), conversion_calls(repo), structs, autos, drop_impls(repo), value_conversions(repo)
+    return list(seen.values()), scope_impls(repo), settings_asserts(repo), conversion_calls(repo), structs, autos, drop_impls(repo), value_conversions(repo), hand_impls(repo)
 
 # ------------------------------------------------------------------------------------------------
 # Lean output
@@ -930,7 +991,7 @@ def lean_lt(l):
     return "." + {"static": "static_"}.get(l, l)
 
 def emit(repo, outdir):
-    sigs, impls, asserts, convs, structs, autos, drops, vconvs = extract(repo)
+    sigs, impls, asserts, convs, structs, autos, drops, vconvs, hands = extract(repo)
     L = []
     L.append("/-")
     L.append("  GENERATED by translator/sigs2lean.py from the Rust sources of bump-scope — do not edit.")
@@ -990,10 +1051,16 @@ def emit(repo, outdir):
     L.append(",\n".join(rows))
     L.append("]")
     L.append("")
+    L.append("/-- every hand-written `unsafe impl Send/Sync` of the crate: (trait, type, bounds, type parameters stored in a field outside PhantomData) -/")
+    L.append("def handImpls : List HandImpl := [")
+    L.append(",\n".join(f"  ⟨.{tr}, {lean_str(ty)}, [{', '.join(f'({lean_str(n)}, .{x})' for n, x in bs)}], [{', '.join(lean_str(p_) for p_ in st)}], {lean_str(srcl)}⟩"
+                        for tr, ty, bs, st, srcl in hands))
+    L.append("]")
+    L.append("")
     L.append("def dropImpls : List (String × Bool) := [" + ", ".join(f"({lean_str(t)}, {'true' if h else 'false'})" for t, h in drops) + "]")
     L.append("")
     L.append("def table : Table := { sigs := sigs, scopeImpls := scopeImpls, settingsAsserts := settingsAsserts, conversions := conversions, valueConvs := valueConvs,")
-    L.append("                       structs := structs, autoImpls := autoImpls, dropImpls := dropImpls }")
+    L.append("                       structs := structs, autoImpls := autoImpls, dropImpls := dropImpls, handImpls := handImpls }")
     L.append("")
     L.append("end Gen.Sigs")
     text = "\n".join(L) + "\n"
@@ -1003,7 +1070,7 @@ def emit(repo, outdir):
     if old != text:
         with open(path, "w") as f: f.write(text)
     print(f"sigs2lean: {len(sigs)} signatures, {len(impls)} BumpAllocatorCoreScope impls, {len(asserts)} const-assert blocks, "
-          f"{len(convs)} settings conversions, {len(vconvs)} value conversions, {len(structs)} structs, {len(autos)} explicit Send/Sync impls -> {path}" + ("" if old != text else " (unchanged)"))
+          f"{len(convs)} settings conversions, {len(vconvs)} value conversions, {len(structs)} structs, {len(autos)} explicit Send/Sync impls of handle types ({len(hands)} in the whole crate) -> {path}" + ("" if old != text else " (unchanged)"))
 
 def main():
     if len(sys.argv) != 3:
